@@ -39,17 +39,34 @@
      source).  Missing for the full statement: carrying these through the nest (zs = true in
      spec: the final z of the run at each point), read_covered for inserting traversals, and the
      projection level.
-   NOT proved (checked by the oracle c16_holds on the implementation's files and, as verdict
-   bit 4, on the model's files for every generated case): the hypotheses of C16_level_spec for
-   `&` levels (yielded elements = lookup intersection, locality of its events) and for `<<`
-   levels (populate generator incl. its saved-stamp rows), hence C16_model_meets_spec itself;
-   see the comment at C16_model_meets_spec for the full statements. *)
+   Round 10: the nest specification is stated against the populated tensor before / after the run
+     (class ZZ: zz_in / zz_out; expect_rows and loc_ok take the destination fibers of a point from
+     them), C16_pop_level_core covers zs = true for a traversal that does not insert;
+     C16_populate1_spec and C16_model_meets_spec_populate1: the whole oracle with ANY registered
+     keys (populate_read / populate_write included) for nests whose populate prefix is at most
+     the first level and whose root traversal does not insert; C16_populate_read_scan: the
+     ">= 1 row" half of read_covered for inserting traversals, at the level of the generator.
+   PROVED end to end (c16_holds c (c16_model c) = true): C16_model_meets_spec_partial (no populate
+     level), C16_model_meets_spec_populate (populate prefix of any depth, no projection level, no
+     populate_read / populate_write key registered), C16_model_meets_spec_populate1 (populate
+     prefix of depth <= 1, any keys, root traversal not inserting).
+   NOT proved (checked by the oracle c16_holds on the implementation's files and, as verdict bit 4,
+     on the model's files for every generated case): C16_model_meets_spec itself.  Missing:
+     (1) destination-side addressing below the first level (needs the fibers of a deeper point in
+         the final tree: lookup of the kept child through the sorted-map view upd, and that the
+         points of the reference space are distinct);
+     (2) read_covered for INSERTING traversals inside the oracle (C16_populate_read_scan gives the
+         scan half for one traversal; the second row from the shift phase and the link to
+         trace_ok are open);
+     (3) the projection level (rank 50+i at index i: shape / lshape / Lloc assume rank = index).
+   *)
 From Coq Require Import ZArith List Bool.
 From FT Require Import Model.Base Model.Obs Model.C16Metrics Model.C16Nest Model.C16Check
                        Proofs.C16MetricsP Proofs.C16CheckP Proofs.C16AndP
                        Proofs.C16CoreP Proofs.C16RefP Proofs.C16NestP Proofs.C16PlainP
                        Proofs.C16AndLevelP Proofs.C16EagerP Proofs.C16GlueP Proofs.C16PopP
-                       Proofs.C16PopNestP Proofs.C16Glue2P Proofs.C16PopPosP.
+                       Proofs.C16PopNestP Proofs.C16Glue2P Proofs.C16PopPosP Proofs.C16PopScanP
+                       Proofs.C16PopCoreP.
 Import ListNotations.
 Open Scope Z_scope.
 
@@ -149,28 +166,28 @@ Print Assumptions C16_trace_is_emits.
    and addressed ([loc_ok]).  The invariant used: incIter only raises the innermost component in
    use, endIter resets it after its last row, bodies restore the vector (outer components
    constant during an inner traversal). *)
-Theorem C16_level_spec : forall zs tr n i L lv' pt e items fin, length pt = i ->
+Theorem C16_level_spec : forall (zz : ZZ) zs tr n i L lv' pt e items fin, length pt = i ->
   Forall (item_ok zs tr n i lv' pt) items -> Forall (local i) fin ->
   children pt items = kids L (pt, e) ->
   lsafe (0, None) (skels i items ++ fin) = true ->
   loc_ok zs tr i L pt e (skels i items ++ fin) ->
   spec zs tr n i (L :: lv') pt e
        ([EReg (Z.of_nat i)] ++ flat_items (Z.of_nat i) items ++ fin ++ [EEnd (Z.of_nat i)]).
-Proof. exact GL. Qed.
+Proof. exact (@GL). Qed.
 Print Assumptions C16_level_spec.
 
 (* C16_plain_nest_spec: every nest of `for c, p in <eager fiber>` levels - any depth, any operand
    trees (explicit defaults and empty sub-fibers included), any traces - meets [spec]. *)
-Theorem C16_plain_nest_spec : forall zs n tr zshape nz m lv, forallb plain_level lv = true ->
+Theorem C16_plain_nest_spec : forall (zz : ZZ) zs n tr zshape nz m lv, forallb plain_level lv = true ->
   forall i pt e z, length pt = i -> labinv i z ->
   spec zs tr n i lv pt e (fst (run tr zshape nz m lv i pt e z)).
-Proof. exact plain_nest_spec. Qed.
+Proof. exact (@plain_nest_spec). Qed.
 Print Assumptions C16_plain_nest_spec.
 
 (* ... read at the top of a session: loop_order = 0..d-1 (d = levels entered) and every file is
    [header iff its rank was reached] ++ rows that are stamp-ordered (strictly for iter) and equal
    to the reference iteration space with storage positions. *)
-Theorem C16_plain_nest : forall zs n tr zshape nz m lv keys m0 e z,
+Theorem C16_plain_nest : forall (zz : ZZ) zs n tr zshape nz m lv keys m0 e z,
   forallb plain_level lv = true ->
   let evs := fst (run tr zshape nz m lv 0 [] e {| th_z := z; th_lab := lab0 |}) in
   let st' := exec n (init_state keys true m0) evs in
@@ -178,7 +195,7 @@ Theorem C16_plain_nest : forall zs n tr zshape nz m lv keys m0 e z,
   m_lo st' = iota d
   /\ forall kk, In kk keys -> exists data,
        content st' kk = Some (hdrs kk 0 d ++ data) /\ rows_ok zs tr 0 [] lv [] e kk data.
-Proof. exact plain_nest_top. Qed.
+Proof. exact (@plain_nest_top). Qed.
 Print Assumptions C16_plain_nest.
 
 Example C16_plain_nest_nonvacuous :
@@ -210,13 +227,13 @@ Print Assumptions C16_intersect_yields.
    for iter), and iter rows = the reference iteration space (lookup intersection for `&`) with
    stream / storage positions.  The label state is the one Metrics keeps ([labinv]: no matches,
    counters of inner ranks reset), so the dynamic labels of `&` are 0 and 1. *)
-Theorem C16_eager_nest_spec : forall zs n tr zshape nz m lv, forallb eager_level lv = true ->
+Theorem C16_eager_nest_spec : forall (zz : ZZ) zs n tr zshape nz m lv, forallb eager_level lv = true ->
   forall i pt e z, length pt = i -> labinv i z -> env_ok e -> nest_int_ok tr i lv e ->
   spec zs tr n i lv pt e (fst (run tr zshape nz m lv i pt e z)).
-Proof. exact eager_nest_spec. Qed.
+Proof. exact (@eager_nest_spec). Qed.
 Print Assumptions C16_eager_nest_spec.
 
-Theorem C16_eager_nest : forall zs n tr zshape nz m lv keys m0 e z,
+Theorem C16_eager_nest : forall (zz : ZZ) zs n tr zshape nz m lv keys m0 e z,
   forallb eager_level lv = true -> env_ok e -> nest_int_ok tr 0 lv e ->
   let evs := fst (run tr zshape nz m lv 0 [] e {| th_z := z; th_lab := lab0 |}) in
   let st' := exec n (init_state keys true m0) evs in
@@ -224,7 +241,7 @@ Theorem C16_eager_nest : forall zs n tr zshape nz m lv keys m0 e z,
   m_lo st' = iota d
   /\ forall kk, In kk keys -> exists data,
        content st' kk = Some (hdrs kk 0 d ++ data) /\ rows_ok zs tr 0 [] lv [] e kk data.
-Proof. exact eager_nest_top. Qed.
+Proof. exact (@eager_nest_top). Qed.
 Print Assumptions C16_eager_nest.
 
 Example C16_eager_nest_nonvacuous :
@@ -309,11 +326,13 @@ Print Assumptions C16_pop_loop_facts.
    abstract source stream (els, fin_s): if the source's events are intersect rows / incIter of
    rank i, its elements are the reference elements of the level, its intersect rows are addressed
    (S4) and the stream positions address the source (S5), and the bodies meet [spec] one level
-   down on well-typed destinations, then the whole level meets [spec] (zs = false): counter
+   down on well-typed destinations, then the whole level meets [spec]: counter
    vector restored, loop order, header, stamps ordered in EVERY trace of the level - populate_<b>,
    populate_read_<a>, populate_write_<a> with their saved-stamp rows and the shift phase included -
-   and iter / intersect / populate_<b> rows addressed against the reference space. *)
-Theorem C16_pop_level_core : forall n tr i s u zu sh lv' pt e (body : body_t) zes els fin_s ls3 ip zleaf dz,
+   and iter / intersect / populate_<b> rows addressed against the reference space; with zs = true
+   (round 10) also populate_read_<a> / populate_write_<a> against the fibers of the point in the
+   trees before / after the run (class ZZ), for a traversal that does not insert. *)
+Theorem C16_pop_level_core : forall (zz : ZZ) zs n tr i s u zu sh lv' pt e (body : body_t) zes els fin_s ls3 ip zleaf dz,
   length pt = i ->
   let r := Z.of_nat i in
   let L := {| l_pop := true; l_src := s; l_ufmt := u; l_zufmt := zu; l_proj := None; l_shape := sh |} in
@@ -322,7 +341,7 @@ Theorem C16_pop_level_core : forall n tr i s u zu sh lv' pt e (body : body_t) ze
   (forall c e' z', labinv (S i) z' -> zty dz z' ->
      labinv (S i) (snd (body c e' z')) /\ zty dz (snd (body c e' z'))) ->
   (forall c e' z', labinv (S i) z' -> zty dz z' -> In (c, e') (ref_elems L e) ->
-     spec false tr n (S i) lv' (pt ++ [c]) e' (fst (body c e' z'))) ->
+     spec zs tr n (S i) lv' (pt ++ [c]) e' (fst (body c e' z'))) ->
   Forall (fun el => Forall (srcP i) (fst el)) els -> Forall (srcP i) fin_s ->
   map snd els = ref_elems L e ->
   (forall label, tr (r, K_INT, label) = true ->
@@ -331,10 +350,13 @@ Theorem C16_pop_level_core : forall n tr i s u zu sh lv' pt e (body : body_t) ze
   (bt = true -> map (fun jc : Z * (Z * env) => pt ++ [fst (snd jc); fst jc]) (enumZ (ref_elems L e) 0)
                 = expect_at L false K_POP 1 [] [] pt e) ->
   let res := pop_loop r 0 1 rt wt bt zleaf (negb zu) ip body els 0 (pst0 zes) ls3 in
-  spec false tr n i (L :: lv') pt e
+  (zs = true -> zdesc zz_in pt = zes /\ zdesc zz_out pt = p_z (fst (snd res))
+                /\ appending L zes e = true /\ ssorted_f zes
+                /\ match map fst (ref_elems L e) with [] => True | c0 :: cs => inc_from c0 cs end) ->
+  spec zs tr n i (L :: lv') pt e
        ([EReg r] ++ flat_items r (fst res) ++ (fin_s ++ pop_final r 0 rt wt ip (fst (snd res))) ++ [EEnd r])
   /\ linv (S i) (snd (snd res)) /\ ftyp dz (p_z (fst (snd res))).
-Proof. exact pop_level_core. Qed.
+Proof. exact (@pop_level_core). Qed.
 Print Assumptions C16_pop_level_core.
 
 (* Round 7.  C16_retry_endcollect: an endCollect() that raises because a consumable trace still
@@ -355,14 +377,14 @@ Print Assumptions C16_retry_endcollect.
    (zs = false: the rows of populate_read / populate_write are ordered but not addressed).
    Hypotheses: the populated tree has the depth of the populate prefix; operand trees strictly
    sorted; [nest_pos_ok] = the complement of known-finding region 1. *)
-Theorem C16_nest_spec : forall n tr zshape m lv, pnest lv = true ->
+Theorem C16_nest_spec : forall (zz : ZZ) n tr zshape m lv, pnest lv = true ->
   forall nz i pt e z, length pt = i -> nz = (i + n_pop lv)%nat -> labinv i z -> zty (n_pop lv) z ->
   env_ok e -> nest_pos_ok tr i lv e ->
   spec false tr n i lv pt e (fst (run tr zshape nz m lv i pt e z)).
-Proof. exact pnest_spec_gen. Qed.
+Proof. exact (@pnest_spec_gen). Qed.
 Print Assumptions C16_nest_spec.
 
-Theorem C16_nest : forall n tr zshape m lv keys m0 e zt,
+Theorem C16_nest : forall (zz : ZZ) n tr zshape m lv keys m0 e zt,
   pnest lv = true -> depth_ok (n_pop lv) zt = true -> env_ok e -> nest_pos_ok tr 0 lv e ->
   let evs := fst (run tr zshape (n_pop lv) m lv 0 [] e {| th_z := Some zt; th_lab := lab0 |}) in
   let st' := exec n (init_state keys true m0) evs in
@@ -370,7 +392,7 @@ Theorem C16_nest : forall n tr zshape m lv keys m0 e zt,
   m_lo st' = iota d
   /\ forall kk, In kk keys -> exists data,
        content st' kk = Some (hdrs kk 0 d ++ data) /\ rows_ok false tr 0 [] lv [] e kk data.
-Proof. exact pnest_top. Qed.
+Proof. exact (@pnest_top). Qed.
 Print Assumptions C16_nest.
 
 (* C16_model_meets_spec_populate: the whole oracle for well-formed cases outside region 1 whose
@@ -471,18 +493,68 @@ Theorem C16_populate_fib_level_dest : forall tr u sh zu x e zes pt r la' lb' la 
 Proof. exact pop_fib_level_dest. Qed.
 Print Assumptions C16_populate_fib_level_dest.
 
+(* Round 10.  C16_populate_read_scan: the read scan of an INSERTING traversal (compressed
+   destination, first source coordinate below the last stored one, populate_read registered): every
+   stored non-empty element of the destination with a coordinate >= 0 and not above some source
+   coordinate gets a populate_read row - from the scan iterRange(old_end, b_coord) before the next
+   source coordinate, or as the existing element itself.  (The mutant old_end = b_coord + 2 of
+   round 9 violates exactly this.)  This is the ">= 1 row" half of the oracle's read_covered. *)
+Theorem C16_populate_read_scan : forall r la lb wt bt zl ip (body : body_t) els zes isp ls m,
+  ssorted_f zes -> last_coord zes = Some m ->
+  match els with [] => True | el :: els' => 0 <= elc el < m /\ inc_from (elc el) (map elc els') end ->
+  let st := {| p_z := zes; p_apos := 0; p_ins := false; p_oldend := 0; p_toins := []; p_isp := isp |} in
+  let res := pop_loop r la lb true wt bt zl true ip body els 0 st ls in
+  forall ct, In ct zes -> is_empty 0 (snd ct) = false -> 0 <= fst ct ->
+    (exists el, In el els /\ fst ct <= elc el) ->
+    In (fst ct) (flat_map (fun it => rdc la (it_pre it)) (fst res)).
+Proof. exact pop_loop_scan_init. Qed.
+Print Assumptions C16_populate_read_scan.
+
+(* C16_populate1_spec: a nest whose populate prefix is its first level only meets the whole nest
+   specification with zs = true - the rows of populate_read_0 / populate_write_0 of the root
+   traversal addressed against the populated fiber before / after the run - when that traversal
+   does not insert (zside_ok). *)
+Theorem C16_populate1_spec : forall (zz : ZZ) zs n tr zshape m L lv e zes,
+  lvl_ok L = true -> l_pop L = true -> forallb eager_level lv = true ->
+  ftyp 0 zes -> env_ok e -> nest_pos_ok tr 0 (L :: lv) e ->
+  let z := {| th_z := Some (Node zes); th_lab := lab0 |} in
+  (zs = true -> zside_ok tr zshape 1 0 L (fun c e' z' => run tr zshape 1 m lv 1 ([] ++ [c]) e' z') [] e z zes) ->
+  spec zs tr n 0 (L :: lv) [] e (fst (run tr zshape 1 m (L :: lv) 0 [] e z)).
+Proof. exact (@pop1_spec). Qed.
+Print Assumptions C16_populate1_spec.
+
+(* C16_model_meets_spec_populate1: the whole oracle - ANY registered keys, destination-side traces
+   included - for well-formed cases outside region 1 without a projection level whose populate
+   prefix is at most the first level and whose root traversal does not insert (uncompressed
+   destination rank, or first source coordinate not below the last stored one). *)
+Theorem C16_model_meets_spec_populate1 : forall c,
+  c16_wf c = true -> c16_region c = 0 -> pnest (k_levels c) = true ->
+  (n_pop (k_levels c) <= 1)%nat -> root_appending c = true ->
+  c16_holds c (c16_model c) = true.
+Proof. exact model_meets_spec_pop1. Qed.
+Print Assumptions C16_model_meets_spec_populate1.
+
+Example C16_model_meets_spec_populate1_nonvacuous :
+  let c := {| k_levels := [ {| l_pop := true; l_src := SAnd 0 1; l_ufmt := false; l_zufmt := false; l_proj := None; l_shape := 4 |};
+                            {| l_pop := false; l_src := SFib 1; l_ufmt := false; l_zufmt := false; l_proj := None; l_shape := 3 |} ];
+              k_inputs := [ Node [(1, Node [(0, Leaf 1)]); (2, Node [(1, Leaf 2)])];
+                            Node [(0, Node [(1, Leaf 3)]); (1, Node [(0, Leaf 1)]); (2, Node [(0, Leaf 4); (1, Leaf 5)])] ];
+              k_z := Node [(0, Leaf 7); (1, Leaf 2)]; k_zshape := [4]; k_skip := 0;
+              k_keys := [(0,0,0); (0,1,2); (0,1,3); (0,2,1); (0,3,0); (0,4,0); (1,0,0); (1,3,0)];
+              k_thresholds := [2; 1000] |} in
+  c16_wf c = true /\ c16_region c = 0 /\ pnest (k_levels c) = true
+  /\ (n_pop (k_levels c) <= 1)%nat /\ root_appending c = true
+  /\ existsb (fun k => is_zside (key_kind k)) (k_keys c) = true.
+Proof. vm_compute. repeat split; auto. Qed.
+
 (* C16_model_meets_spec, full statement (NOT proved):
      forall c, c16_wf c = true -> c16_region c = 0 -> c16_holds c (c16_model c) = true
-   i.e. additionally to the two theorems above, for every trace of the model
-     (a) header = ref_header i  (needs: the nest registers ranks 0,1,2,.. in order);
-     (b) chain lex_le (map (firstn (S i)) rows), lex_lt for kind iter
-         (invariant: incIter only raises the innermost component in use, endIter resets it
-          after its last row and an outer incIter follows before the next row of that depth);
-     (c) map (skipn (S i)) rows = flat_map (expect_at ...) (space levels i)
-         (the two-finger walk touches `touched`, positions are indices).
-   What is established instead: the clauses (a)-(c) are evaluated by c16_holds on the model's own
-   observation for every generated case (verdict bit 4) and on the implementation's files
-   (bit 1); the sample below shows the oracle is satisfiable on a populate nest. *)
+   Proved instances: C16_model_meets_spec_partial, C16_model_meets_spec_populate,
+   C16_model_meets_spec_populate1 (see the comment at the top for what is missing).  For the
+   remaining cases the clauses of the oracle are evaluated by c16_holds on the model's own
+   observation for every generated case (verdict bit 4) and on the implementation's files (bit 1);
+   the sample below (an inserting populate with populate_read / populate_write registered) shows the
+   oracle is satisfiable there. *)
 Definition c16_sample : c16_case :=
   {| k_levels := [ {| l_pop := true; l_src := SAnd 0 1; l_ufmt := false; l_zufmt := false; l_proj := None; l_shape := 4 |}; {| l_pop := false; l_src := SFib 1; l_ufmt := false; l_zufmt := false; l_proj := None; l_shape := 4 |} ];
      k_inputs := [ Node [(0, Node [(0, Leaf 1)]); (2, Node [(1, Leaf 2)])];
